@@ -438,7 +438,9 @@ def filter_citations(citations: List[CitationBase]) -> List[CitationBase]:
 
         filtered_citations.append(citation)
 
-    return filtered_citations
+    # full spans of parallel citations share their start, so ordering by full
+    # span does not always order by position; return in document order
+    return sorted(filtered_citations, key=lambda citation: citation.span())
 
 
 joke_cite: List[CitationBase] = [
